@@ -523,6 +523,12 @@ def items_catalogue():
             if conc:
                 t['a']['concurrency'] = conc
             out.append(('items%d_c%s_%s' % (n, conc or 0, 'ok' if bad is None else 'err%d' % bad), prog(['a', 'z'], t, oc)))
+    # with-items x retry: the next attempt executes every index again
+    for n, conc in ((2, None), (2, 1), (3, 2)):
+        t = {'a': {'with_items': n, 'retry': {'count': 1, 'delay': 0}, 'succ': [{'to': 'z'}]}, 'z': {}}
+        if conc:
+            t['a']['concurrency'] = conc
+        out.append(('items%d_c%s_retry' % (n, conc or 0), prog(['a', 'z'], t, {'a': {i: (['err', 'ok'] if i == 0 else ['ok']) for i in range(n)}})))
     # a with-items JOIN (the concurrency policy is not applied to it - KF-C07-1)
     t = {'a': {'succ': [{'to': 'j'}]}, 'b': {'succ': [{'to': 'j'}]}, 'j': {'join': -1, 'with_items': 2, 'concurrency': 1, 'succ': [{'to': 'z'}]}, 'z': {}}
     out.append(('items_join_c1', prog(['a', 'b', 'j', 'z'], t, {'j': {0: ['ok'], 1: ['ok']}})))
